@@ -120,6 +120,16 @@ func runC13(c *runCtx) {
 			y := []byte(strings.Join(cm, nl) + nl)
 			c.c13Case(kind+"-comment", y, 0, 0)
 			c.c13Case(kind+"-comment", y, uint32(len(y)), 0)
+			// a comment without any separator, or an empty line, in FRONT of the table (the reader skips both) and
+			// at every other position
+			for pos := 0; pos <= rows; pos += 1 + rows/3 {
+				for _, extra := range []string{"# exported 2026-10-01", ""} {
+					ins := append(append(append([]string{}, lines[:pos]...), extra), lines[pos:]...)
+					z := []byte(strings.Join(ins, nl) + nl)
+					c.c13Case(kind+"-comment", z, 0, 0)
+					c.c13Case(kind+"-comment", z, uint32(len(z)), 0)
+				}
+			}
 		}
 		// single-record / single-column files must not be tables
 		c.c13Case(kind+"-one-line", []byte(lines[0]+nl), 0, 0)
